@@ -56,7 +56,11 @@ def check_case(ctx, case, enum=False, sk_cache=None):
         from .c01 import as_type, PAYLOAD_TYPES
         ptype = case.get("ptype") or PAYLOAD_TYPES[(dd + k + len(digest)) % len(PAYLOAD_TYPES)]
         imp = {} if (at is False and (dd + k) % 2) else {"allow_truncate": at}          # default left implicit
-        rs = sk.sign_digest(as_type(digest, ptype), k=k, sigencode=SU.rs_tuple, **imp)
+        if (dd + 2 * k + len(digest)) % 3 == 0:
+            # documented positional order: sign_digest(digest, entropy, sigencode, k, allow_truncate)
+            rs = sk.sign_digest(as_type(digest, ptype), None, SU.rs_tuple, k, at)
+        else:
+            rs = sk.sign_digest(as_type(digest, ptype), k=k, sigencode=SU.rs_tuple, **imp)
         got = ("sig", tuple(int(v) for v in rs))
     except RSZeroError:
         got = ("rszero",)
